@@ -89,6 +89,7 @@ func TestFreeJoinV2(t *testing.T) {
 			}
 			kept = append(kept, s)
 			for _, old := range kept { // the consumer owns copy-mode slices for ever: scribble
+				old = old[:cap(old)] // ... including the spare capacity behind it (what append() would write into)
 				for j := range old {
 					old[j] = -1
 				}
@@ -157,6 +158,7 @@ func TestFreeUnite(t *testing.T) {
 			}
 			kept = append(kept, s)
 			for _, old := range kept {
+				old = old[:cap(old)] // ... including the spare capacity behind it (what append() would write into)
 				for j := range old {
 					old[j] = -1
 				}
@@ -245,6 +247,7 @@ func TestFreeJoinV1(t *testing.T) {
 			}
 			kept = append(kept, s)
 			for _, old := range kept {
+				old = old[:cap(old)] // ... including the spare capacity behind it (what append() would write into)
 				for j := range old {
 					old[j] = -1
 				}
